@@ -623,6 +623,11 @@ func writeTypeConversion(w *formatting.IndentedWriter, typeChange dsl.TypeChange
 		w.Indented(func() {
 			writeTypeConversion(w, tc.InnerChange, sourceName+".value()", targetName, write)
 		})
+		fmt.Fprintf(w, "} else {\n")
+		w.Indented(func() {
+			// the destination may be reused between reads and still hold a value
+			fmt.Fprintf(w, "%s = std::nullopt;\n", targetName)
+		})
 		fmt.Fprintf(w, "}\n")
 
 	case *dsl.TypeChangeOptionalToScalar:
